@@ -222,6 +222,9 @@ func runC18Child(c *core.Ctx) {
 
 var childSeq int
 
+// c18ChildEnv: extra environment of the next child starts (the crash point of the instrumented build).
+var c18ChildEnv []string
+
 // startChild runs one honeytrap start on dataDir with the given services and returns what it presented.
 func startChild(c *core.Ctx, dataDir string, services []string, strace string) (identity, error) {
 	childSeq++
@@ -232,7 +235,7 @@ func startChild(c *core.Ctx, dataDir string, services []string, strace string) (
 		args = append([]string{"strace", "-f", "-o", strace, "-s", "64", "-e", "trace=openat,open,creat,write,rename,renameat,renameat2,fsync,fdatasync,close,unlink,unlinkat,ftruncate"}, args...)
 	}
 	cmd := exec.Command(args[0], args[1:]...)
-	cmd.Env = append(os.Environ(), "VF_PROP=C18/child", "VF_DATADIR="+dataDir, "VF_SERVICES="+strings.Join(services, ","), "VF_CHILD_OUT="+out, "VF_OUT=/dev/null", "VF_SHARD=0", "VF_NSHARDS=1", "VF_ONLY=-1", "VF_START=0")
+	cmd.Env = append(append(os.Environ(), c18ChildEnv...), "VF_PROP=C18/child", "VF_DATADIR="+dataDir, "VF_SERVICES="+strings.Join(services, ","), "VF_CHILD_OUT="+out, "VF_OUT=/dev/null", "VF_SHARD=0", "VF_NSHARDS=1", "VF_ONLY=-1", "VF_START=0")
 	cmd.Stdout, cmd.Stderr = nil, nil
 	done := make(chan error, 1)
 	if err := cmd.Start(); err != nil {
